@@ -182,6 +182,13 @@ func Harness_C16_GenericLocate(klen int) {
 	}
 	err := set.AddKey(k2)
 	verif.Assert((err != nil) == same, "duplicate detection disagrees with key equality")
+	// every key now in the set is a duplicate when added again, whichever
+	// position it has in its hash bucket (A, B, A with A and B colliding)
+	verif.Assert(set.AddKey(k1) != nil, "the first key was accepted a second time")
+	verif.Assert(set.AddKey(k2) != nil, "the second key was accepted a second time")
+	o1, f1 := set.LocateOriginalKey(k1)
+	o2, f2 := set.LocateOriginalKey(k2)
+	verif.Assert(f1 && f2 && string(o1) == string(k1) && string(o2) == string(k2), "a requested key is not located after the duplicates were rejected")
 	verif.Cover("checked")
 }
 
